@@ -132,7 +132,8 @@ def run(out, tier):
         # interactions that must get the exhaustive noise treatment whenever the pools offer them
         must = ["explicit-initial-vs-direct-parent:fill", "explicit-initial-vs-direct-parent:stroke",
                 "explicit-initial-under-override", "gradref-with-href", "gradref-href-no-own-stops", "clipref",
-                "clip-of-clip", "opacity-group", "defs>gradient-with-href", "use->g", "use->rect", "tag:svg"]
+                "clip-of-clip", "opacity-group", "defs>gradient-with-href", "use->g", "use->rect", "tag:svg",
+                "tag:title", "tag:desc", "tag:metadata"]
         covered = set()
         for f in ["mixed", "grad", "clip", "paint", "struct", "stroke"]:
             docs, gens = D.generate_docs(f, nbase * 12, common.seed(), wd, max_nodes=7)
